@@ -114,7 +114,8 @@ example : CubicUniform.cuEvalSpline1D (fun q : ℚ => if q < 1 then 0 else if q 
     (fun _ => 1) (fun _ => 1) (fun _ => 0) (fun i hi => by
       have : i < 3 := by simpa [cuNb] using hi
       interval_cases i <;>
-        norm_num [matVec, cuNb, cuCollocRow, CubicUniform.cuFindSpan, CubicUniform.cuBasisFuns, rowOf, colIdx, sum_range_succ])
+        norm_num [matVec, cuNb, cuCollocRow, CubicUniform.cuFindSpan, CubicUniform.cuBasisFuns, rowOf, colIdx, sum_range_succ,
+          show Int.toNat 3 = 3 from rfl, show Int.toNat 4 = 4 from rfl, show Int.toNat 5 = 5 from rfl])
     1 (by decide)
   simpa [cuNb] using this
 
